@@ -271,16 +271,22 @@ type findingsFile struct {
 }
 
 func loadFindings(root string) []Finding {
-	b, err := os.ReadFile(filepath.Join(root, "known_findings.json"))
-	if err != nil {
-		return nil
+	var all []Finding
+	files, _ := filepath.Glob(filepath.Join(root, "known_findings.d", "*.json"))
+	files = append([]string{filepath.Join(root, "known_findings.json")}, files...)
+	for _, fn := range files {
+		b, err := os.ReadFile(fn)
+		if err != nil {
+			continue
+		}
+		var f findingsFile
+		if err := json.Unmarshal(b, &f); err != nil {
+			fmt.Fprintf(os.Stderr, "%s: %v\n", fn, err)
+			os.Exit(2)
+		}
+		all = append(all, f.Findings...)
 	}
-	var f findingsFile
-	if err := json.Unmarshal(b, &f); err != nil {
-		fmt.Fprintf(os.Stderr, "known_findings.json: %v\n", err)
-		os.Exit(2)
-	}
-	return f.Findings
+	return all
 }
 
 // ---------------------------------------------------------------------------
@@ -375,7 +381,7 @@ func Finish(c *Check, env *Env, start time.Time) int {
 		if newViol > 25 {
 			continue
 		}
-		dir := filepath.Join(env.Root, "replays", c.ID)
+		dir := filepath.Join(outDir(env.Root), "replays", c.ID)
 		os.MkdirAll(dir, 0o755)
 		path := filepath.Join(dir, fmt.Sprintf("%016x.json", Hash(sig)))
 		b, _ := json.MarshalIndent(replayFile{Property: c.ID, Signature: sig, Detail: v.Detail, Case: v.Case}, "", " ")
@@ -443,9 +449,9 @@ func Finish(c *Check, env *Env, start time.Time) int {
 		"violations":  newViol,
 	}
 	if env.Sub == "" || os.Getenv("VERIF_WRITE_EVIDENCE") == "1" {
-		os.MkdirAll(filepath.Join(env.Root, "evidence"), 0o755)
+		os.MkdirAll(filepath.Join(outDir(env.Root), "evidence"), 0o755)
 		b, _ := json.MarshalIndent(ev, "", " ")
-		if err := os.WriteFile(filepath.Join(env.Root, "evidence", c.ID+".json"), b, 0o644); err != nil {
+		if err := os.WriteFile(filepath.Join(outDir(env.Root), "evidence", c.ID+".json"), b, 0o644); err != nil {
 			fmt.Printf("HARNESS-ERROR cannot write evidence: %v\n", err)
 			if exit == 0 {
 				exit = 2
@@ -455,6 +461,15 @@ func Finish(c *Check, env *Env, start time.Time) int {
 	fmt.Printf("%s tier=%s evaluations=%d states=%d nontrivial=%d classes=%d exhaustive=%v violations=%d known=%d wall=%.1fs\n",
 		c.ID, env.Tier, evals, states, nt, len(r.classes), r.exhaustive, newViol, len(knownHit), time.Since(start).Seconds())
 	return exit
+}
+
+// outDir is where evidence and replay files go: VERIF_OUT if set (used when a
+// check is pointed at a scratch copy of the repository), else the root.
+func outDir(root string) string {
+	if d := os.Getenv("VERIF_OUT"); d != "" {
+		return d
+	}
+	return root
 }
 
 func trunc(s string, n int) string {
